@@ -175,6 +175,7 @@ class LibMixin:
         nm.ns['zeros'] = Builtin('zeros', lambda I, a, k: self.np_full(a, k, 0))
         nm.ns['ones'] = Builtin('ones', lambda I, a, k: self.np_full(a, k, 1))
         nm.ns['ndarray'] = BuiltinType('ndarray')
+        nm.ns['nan_to_num'] = Builtin('nan_to_num', self.np_nan_to_num)
         self.stub_modules['numpy'] = nm
         rm = ModuleModel('numpy.random')
         rm.opaque = True
@@ -709,6 +710,23 @@ class LibMixin:
                 py_raise('ValueError', 'negative dimensions are not allowed')
         return SArr(h, w, lambda i, j: v, kind)
 
+    def np_nan_to_num(self, I, a, k):
+        A = a[0]
+        if not (isinstance(A, SArr) and A.kind == 'ratio'):
+            raise Unsupported('nan_to_num of a non-ratio array')
+        big = getattr(self, '_np_big', None)
+        if big is None:
+            big = self._np_big = z3.Real('np_float_max')
+            self.np_big_fact = big > 1000000
+        w = list(A.writes)
+        def elem(i, j):
+            num, den = self.sarr_read(A, i, j, w)
+            n, d = zreal(num), zreal(den)
+            # nan -> 0.0, +inf -> largest finite float, -inf -> most negative
+            return z3.If(d == 0, z3.If(n == 0, z3.RealVal(0), z3.If(n > 0, big, -big)), n / d)
+        self.assume(self.np_big_fact)
+        return SArr(A.h, A.w, elem, 'real')
+
     # ---------------------------------------------------------------------- rng
     def bi_default_rng(self, I, a, k):
         r = Rng(self.fresh_name('rng'))
@@ -949,11 +967,9 @@ class LibMixin:
             f = (lambda x, y: concretize(z3.Or(zbool(x), zbool(y)))) if op is ast.BitOr else (
                 lambda x, y: concretize(z3.And(zbool(x), zbool(y))))
             return self.sarr_map2(a, b, f, 'bool')
-        if isinstance(a, SArr) and op is ast.Div:
-            def div(x, y):
-                # numpy: x/0 -> inf or nan (warning); model as uninterpreted nan/inf marker
-                raise Unsupported('array division')
-            return self.sarr_map2(a, b, div, 'real')
+        if isinstance(a, SArr) and op is ast.Div and isinstance(b, SArr):
+            # numpy int/int true division: kept as (num, den) pairs; 0/0 is nan, x/0 is inf
+            return self.sarr_map2(a, b, lambda x, y: (x, y), 'ratio')
         return NOTIMPL
 
     def ext_compare(self, t, a, b):
